@@ -337,6 +337,8 @@ def run_case(case, obs):
     retry_classes = {o.partition(":")[0] if o.startswith("bulk") else o for i, o in enumerate(attempted) if _kind(op, o) == "retry"}
 
     # ---- classification
+    if case.get("large_bulk"):
+        obs.cls("bulk-with-hundreds-of-item-errors")
     obs.cls(f"op:{op}", f"end:{end}", f"attempts:{'1' if n == 1 else '2-3' if n <= 3 else '4-10' if n <= 10 else '11+'}")
     bulk_item_error = any(o.startswith("bulk_") and _kind(op, o) != "success" for o in attempted)
     if end == "exhausted":
@@ -482,6 +484,16 @@ def _case(draw):
     case = {"op": op, "outcomes": outcomes, "seed": draw(st.integers(0, 2**16)), "fresh": draw(st.booleans())}
     if op == "bulk_index":
         case["n_items"] = n_items
+        if draw(st.integers(0, 7)) == 0:
+            # volume: a chunk with hundreds of rejected items; what decides sits far down the list of item errors
+            n = draw(st.sampled_from([130, 300]))
+            pos = draw(st.sampled_from([0, 99, 100, 101, n - 1]))
+            fatal = [draw(st.sampled_from([429, 503]))] * n
+            fatal[pos] = draw(st.sampled_from([400, 409]))
+            many = ",".join(str(x) for x in [429] * n)
+            case["n_items"] = n
+            case["outcomes"] = [f"bulk_retry:{many}"] * draw(st.integers(0, 2)) + [f"bulk_fatal:{','.join(str(x) for x in fatal)}"]
+            case["large_bulk"] = True
     return case
 
 
